@@ -74,7 +74,7 @@ impl EchoReq {
             .map(|(n, v)| (n.to_ascii_lowercase(), Blob(v.clone())))
             .collect();
         if let Some(ct) = &self.ctype {
-            headers.push(("content-type".into(), Blob(ct.as_bytes().to_vec())));
+            headers.push((self.ctype_name.to_ascii_lowercase(), Blob(ct.as_bytes().to_vec())));
         }
         H2Req {
             method: self.method.to_string(),
